@@ -513,8 +513,9 @@ class Context:
         self, error_name: str, parent_prototype: Optional[JSObject] = None
     ) -> JSCallableObject:
         """Create an Error constructor (Error, TypeError, SyntaxError, etc.)."""
-        # Add prototype first so it can be captured in closure
-        error_prototype = JSObject(parent_prototype)
+        # Add prototype first so it can be captured in closure.  Error.prototype
+        # inherits from Object.prototype, the native errors from Error.prototype
+        error_prototype = JSObject(parent_prototype or self._object_prototype)
         error_prototype.set("name", error_name)
         error_prototype.set("message", "")
 
